@@ -38,6 +38,9 @@ ASSUMPTIONS = [
     "the effective value of an option is observed through a reference call with fresh option-less layers and the effective options at call level (plus Plot.layers[k]['mode'|'params'] directly)",
     "matplotlib Normalize objects are compared by class, vmin and vmax",
     "map kernels run under Engine K with a schedule drawn per call; histogram2d's kernel is simulated too",
+    "a call into an empty window is a provoked failure, not a required one (with 'top'/'side' it returns an empty map)",
+    "a caller-supplied norm object is used only in calls that do not draw (matplotlib itself fills the limits of a norm object when it draws)",
+    "calls with a bare Array ahead of the Layer objects are judged for unmodified inputs and repeatability, not for per-layer precedence",
 ]
 REAL_STUB = {
     "real": ["osyris.map / histogram2d / histogram1d / scatter / plot front-ends", "parse_layer, Layer.copy, get_norm, render (Agg) when plotting", "kernel sources (by CPython)"],
